@@ -708,7 +708,8 @@ def adaptive_scan(
     backstep : bool
         whether backward steps are allowed -- this is concern with some motors
     threshold : float, optional
-        threshold for going backward and rescanning a region, default is 0.8
+        threshold for going backward and rescanning a region, default is 0.8;
+        must be less than 1 when ``backstep`` is True
     md : dict, optional
         metadata
 
@@ -719,6 +720,10 @@ def adaptive_scan(
     _check_detectors_type_input(detectors)
     if not 0 < min_step < max_step:
         raise ValueError("min_step and max_step must meet condition of max_step > min_step > 0")
+    if backstep and not (threshold is not None and threshold < 1):
+        # a back-step is taken when new_step < step * threshold; with threshold >= 1 it can be taken
+        # without the step shrinking, and the scan re-reads the same region forever
+        raise ValueError("threshold must be less than 1 when backstep is allowed")
 
     _md = {
         "detectors": [det.name for det in detectors],
